@@ -56,6 +56,9 @@ type effWrite struct {
 	// kind "callparam": the function calls its func-typed parameter `param`;
 	// cpArgs are the origins of the arguments it passes (in its own terms)
 	cpArgs [][]Loc
+	// method: non-empty when the function invokes this method on its
+	// interface-typed parameter `param` (instead of calling a func parameter)
+	method string
 }
 
 func (w effWrite) loc() Loc {
@@ -84,7 +87,7 @@ func (s *effSummary) sig() string {
 			k = "unknown"
 		}
 		if w.kind == "callparam" {
-			k = "callparam:" + strconv.Itoa(w.param)
+			k = "callparam:" + strconv.Itoa(w.param) + ":" + w.method
 			for _, ls := range w.cpArgs {
 				k += "("
 				for _, l := range ls {
@@ -426,6 +429,20 @@ func (E *effectEngine) callEffects(fn *ssa.Function, in ssa.CallInstruction, add
 	}
 	if c.IsInvoke() {
 		ic := invokeContract(c)
+		if prm, isParam := c.Value.(*ssa.Parameter); ic == nil && isParam {
+			// a method of an interface parameter: resolved at the callers that
+			// pass a value of a known concrete type
+			w := effWrite{kind: "callparam", param: paramIndex(prm), method: c.Method.Name(), instr: in, what: "invoke of " + c.Method.Name() + " on parameter " + prm.Name()}
+			for _, a := range c.Args {
+				var ls []Loc
+				if isRefType(a.Type()) {
+					ls = dedupLocs(E.originsOf(e.of(a), nil, 0))
+				}
+				w.cpArgs = append(w.cpArgs, ls)
+			}
+			s.writes = append(s.writes, w)
+			return
+		}
 		if ic == nil {
 			s.notes = append(s.notes, fmt.Sprintf("%s: uncontracted interface call %s", P.instrPos(in), calleeName(c)))
 			// conservatively: writes through every reference argument
@@ -617,7 +634,34 @@ func (E *effectEngine) applyCallParam(fn *ssa.Function, in ssa.CallInstruction, 
 	}
 	var g *ssa.Function
 	var recv ssa.Value
+	if w.method != "" {
+		// the argument must be a value of a known concrete type
+		mi, ok := fv.(*ssa.MakeInterface)
+		if !ok {
+			if prm, isP := fv.(*ssa.Parameter); isP {
+				nw := effWrite{kind: "callparam", param: paramIndex(prm), method: w.method, instr: w.instr, via: via, what: w.what}
+				for i := range w.cpArgs {
+					nw.cpArgs = append(nw.cpArgs, dedupLocs(argOrigins(i, nil)))
+				}
+				s.writes = append(s.writes, nw)
+				return
+			}
+			unknown("interface method call on a value of unknown concrete type")
+			return
+		}
+		if sel := P.SSA.MethodSets.MethodSet(mi.X.Type()).Lookup(P.Pkg.Types, w.method); sel != nil {
+			g = P.SSA.MethodValue(sel)
+		} else if sel := P.SSA.MethodSets.MethodSet(mi.X.Type()).Lookup(nil, w.method); sel != nil {
+			g = P.SSA.MethodValue(sel)
+		}
+		if g == nil {
+			unknown("method " + w.method + " of " + mi.X.Type().String() + " not found")
+			return
+		}
+		recv = mi.X
+	}
 	switch x := fv.(type) {
+	case *ssa.MakeInterface:
 	case *ssa.MakeClosure:
 		g = x.Fn.(*ssa.Function)
 		if m := boundMethodOf(g); m != nil {
